@@ -278,11 +278,15 @@ def elementwise_division(x, y):
     if x.shape != y.shape:
         raise ValueError("x and y must have the same shape!")
 
+    # scale both operands by the larger component of y so that |y|^2 is formed
+    # from numbers in [1, 2] and can neither overflow nor underflow
+    scale = torch.max(real(y).abs(), imag(y).abs())
+    y = y / scale
     y_star = conj(y)
 
     sqrd_abs_y = absolute_value(y).pow_(2)
 
-    return elementwise_mult(x, y_star).div_(sqrd_abs_y)
+    return elementwise_mult(x / scale, y_star).div_(sqrd_abs_y)
 
 
 def absolute_value(x):
@@ -294,8 +298,7 @@ def absolute_value(x):
     :returns: A real tensor.
     :rtype: torch.Tensor
     """
-    x_star = conj(x)
-    return real(elementwise_mult(x, x_star)).sqrt_()
+    return torch.hypot(real(x), imag(x))
 
 
 def kronecker_prod(x, y):
@@ -332,7 +335,11 @@ def sigmoid(x, y):
     """
     z = (x.cpu().numpy()) + 1j * (y.cpu().numpy())
 
-    out = np.exp(z) / (1 + np.exp(z))
+    # 1 / (1 + e^-z) in the right half plane, e^z / (1 + e^z) in the left one:
+    # the exponential that is formed never overflows
+    right = np.real(z) > 0
+    ez = np.exp(np.where(right, -z, z))
+    out = np.where(right, 1.0, ez) / (1 + ez)
     out = torch.tensor([np.real(out), np.imag(out)]).to(x)
 
     return out
@@ -363,10 +370,14 @@ def inverse(z):
     :returns: 1 / z
     :rtype: torch.Tensor
     """
+    # scale z by its larger component so that |z|^2 is formed from numbers
+    # in [1, 2] and can neither overflow nor underflow
+    scale = torch.max(real(z).abs(), imag(z).abs())
+    z = z / scale
     z_star = conj(z)
     denominator = real(scalar_mult(z, z_star))
 
-    return z_star / denominator
+    return z_star / denominator / scale
 
 
 def norm_sqr(x):
@@ -390,4 +401,8 @@ def norm(x):
     :returns: :math:`|x|`.
     :rtype: torch.Tensor
     """
-    return norm_sqr(x).sqrt_()
+    # scale by the largest component so that the sum of squares can neither
+    # overflow nor underflow (a zero vector is left unscaled)
+    scale = x.abs().max()
+    scale = torch.where(scale > 0, scale, torch.ones_like(scale))
+    return norm_sqr(x / scale).sqrt_().mul_(scale)
